@@ -517,6 +517,40 @@ func minimise(t *testing.T, h *Harness, sc interface{}, res *sim.Result, class s
 					}
 				}
 			}
+			if !changed && round < 2 {
+				// scalars: try 0, then 1, then half of every integer leaf
+				b2, _ := json.Marshal(curSc)
+				var t2 interface{}
+				d2 := json.NewDecoder(bytes.NewReader(b2))
+				d2.UseNumber()
+				d2.Decode(&t2)
+				for _, np := range numberPaths(t2, nil) {
+					cur, ok := lookup(t2, np).(json.Number)
+					if !ok {
+						continue
+					}
+					iv, err := cur.Int64()
+					if err != nil || iv == 0 {
+						continue
+					}
+					for _, nv := range []int64{0, 1, iv / 2} {
+						if nv == iv || (nv == 1 && iv < 1) {
+							continue
+						}
+						cand := setAt(t2, np, json.Number(strconv.FormatInt(nv, 10)))
+						cb, _ := json.Marshal(cand)
+						csc := h.New()
+						if json.Unmarshal(cb, csc) != nil {
+							continue
+						}
+						if try(csc, curRes.Tape) {
+							t2 = cand
+							changed = true
+							break
+						}
+					}
+				}
+			}
 			if !changed {
 				break
 			}
@@ -609,6 +643,53 @@ func arrayPaths(v interface{}, prefix []pathElem) [][]pathElem {
 		}
 	}
 	return out
+}
+
+// numberPaths lists the paths of all integer leaves.
+func numberPaths(v interface{}, prefix []pathElem) [][]pathElem {
+	var out [][]pathElem
+	switch x := v.(type) {
+	case json.Number:
+		out = append(out, append([]pathElem(nil), prefix...))
+	case []interface{}:
+		for i, e := range x {
+			out = append(out, numberPaths(e, append(append([]pathElem(nil), prefix...), pathElem{idx: i, key: "\x00"}))...)
+		}
+	case map[string]interface{}:
+		keys := make([]string, 0, len(x))
+		for k := range x {
+			keys = append(keys, k)
+		}
+		sort.Strings(keys)
+		for _, k := range keys {
+			out = append(out, numberPaths(x[k], append(append([]pathElem(nil), prefix...), pathElem{key: k}))...)
+		}
+	}
+	return out
+}
+
+// setAt returns a deep copy of v with the leaf at path p replaced by nv.
+func setAt(v interface{}, p []pathElem, nv interface{}) interface{} {
+	if len(p) == 0 {
+		return nv
+	}
+	switch x := v.(type) {
+	case []interface{}:
+		out := make([]interface{}, len(x))
+		copy(out, x)
+		if p[0].key == "\x00" && p[0].idx < len(x) {
+			out[p[0].idx] = setAt(x[p[0].idx], p[1:], nv)
+		}
+		return out
+	case map[string]interface{}:
+		out := make(map[string]interface{}, len(x))
+		for k, e := range x {
+			out[k] = e
+		}
+		out[p[0].key] = setAt(x[p[0].key], p[1:], nv)
+		return out
+	}
+	return v
 }
 
 func lookup(v interface{}, p []pathElem) interface{} {
